@@ -313,6 +313,11 @@ func checkProbes(variant string) (msg, src string) {
 		}
 		// and the single-frame accessor
 		s = append(s, fmt.Sprintf("CallFrame(1)=%s@%d:%d", th.CallFrame(1).Name, th.CallFrame(1).Pos.Line, th.CallFrame(1).Pos.Col))
+		// and the debugger's view of each frame (depth 0 = this built-in)
+		for d := 1; d < th.CallStackDepth(); d++ {
+			df := th.DebugFrame(d)
+			s = append(s, fmt.Sprintf("DebugFrame(%d)=%s@%d:%d", d, df.Callable().Name(), df.Position().Line, df.Position().Col))
+		}
 		got = append(got, s)
 		return starlark.MakeInt(len(got)), nil
 	})
@@ -338,6 +343,9 @@ func checkProbes(variant string) (msg, src string) {
 			fmt.Sprintf("g@%d:%d", c.OpPos.Line, c.OpPos.Col),
 			"where@0:0",
 			fmt.Sprintf("CallFrame(1)=g@%d:%d", c.OpPos.Line, c.OpPos.Col),
+			fmt.Sprintf("DebugFrame(1)=g@%d:%d", c.OpPos.Line, c.OpPos.Col),
+			fmt.Sprintf("DebugFrame(2)=f@%d:%d", outer.OpPos.Line, outer.OpPos.Col),
+			fmt.Sprintf("DebugFrame(3)=<toplevel>@%d:%d", top.OpPos.Line, top.OpPos.Col),
 		}
 		if strings.Join(got[i], " ") != strings.Join(want, " ") {
 			return fmt.Sprintf("call number %d of the built-in that inspects the call stack: the thread reports [%s], true [%s]", i+1, strings.Join(got[i], " "), strings.Join(want, " ")), src
